@@ -11,49 +11,37 @@ From Cffi Require C31.Model.
 Open Scope Z_scope.
 Open Scope string_scope.
 
-(* for every expression tree (any depth, any table of known constants) the evaluator returns a value or
-   raises CDefError, FFIError or ValueError -- in particular never ZeroDivisionError, IndexError, KeyError *)
-Theorem C30_evaluator_errors : forall env e x, wf e -> py_eval env e = Err x ->
-  x = CDefError \/ x = FFIError \/ x = ValueError.
-Proof. exact evaluator_errors. Qed.
-Print Assumptions C30_evaluator_errors.
+(* the full statement, now true of the regenerated text (fixes d0898b6 shift-count guard, 77a8ba4 hex-float
+   guard, 501df80 division by zero): for every expression tree (any depth, any table of known constants)
+   _parse_constant returns a value or raises CDefError or FFIError -- nothing else *)
+Theorem C30_evaluator_closed : forall env e x, wf e -> py_eval env e = Err x -> cffi_error x.
+Proof. exact evaluator_closed. Qed.
+Print Assumptions C30_evaluator_closed.
 
-Theorem C30_no_zero_division : forall env e, wf e -> py_eval env e <> Err ZeroDivisionError.
+Corollary C30_no_python_exception : forall env e, wf e ->
+  py_eval env e <> Err ZeroDivisionError /\ py_eval env e <> Err ValueError /\
+  py_eval env e <> Err IndexError /\ py_eval env e <> Err KeyError /\ py_eval env e <> Err MemoryError.
 Proof.
-  intros env e W H. destruct (evaluator_errors env e _ W H) as [E|[E|E]]; discriminate E.
+  intros env e W. repeat split; intros H; destruct (evaluator_closed env e _ W H) as [E|E]; discriminate E.
 Qed.
-Print Assumptions C30_no_zero_division.
+Print Assumptions C30_no_python_exception.
 
-(* the full statement ... *)
-Definition C30_evaluator_closed : Prop :=
-  forall env e x, wf e -> py_eval env e = Err x -> cffi_error x.
+(* the guard: every shift count outside 0..1024 is refused with CDefError before Python shifts *)
+Theorem C30_shift_guard : forall a b, ~ (0 <= b <= 1024) ->
+  binop "<<" a b = Some (Err CDefError) /\ binop ">>" a b = Some (Err CDefError).
+Proof. exact shift_guard. Qed.
+Print Assumptions C30_shift_guard.
 
-(* ... holds away from the two sources of ValueError (a literal on which int(s, 16)/int(s, 2) fails, a
-   negative shift count) ... *)
-Theorem C30_evaluator_closed_partial : forall env e x, wf e -> no_value_error_source env e ->
-  py_eval env e = Err x -> cffi_error x.
-Proof. exact evaluator_closed_partial. Qed.
-Print Assumptions C30_evaluator_closed_partial.
-
-(* ... and is false as the source stands: known findings shift_count and hex_float_constant *)
 Definition lit (s : string) : expr := Const (map (fun a => N_of_ascii a) (list_ascii_of_string s)).
 
-Theorem C30_refuted_negative_shift :
-  py_eval [] (Binary "<<" (lit "1") (Unary "-" (lit "1"))) = Err ValueError /\
-  py_eval [] (Binary ">>" (lit "1") (Unary "-" (lit "1"))) = Err ValueError.
-Proof. split; vm_compute; reflexivity. Qed.
-
-Theorem C30_refuted_hex_float : py_eval [] (lit "0x1p3") = Err ValueError.
-Proof. vm_compute. reflexivity. Qed.
-
-Theorem C30_evaluator_closed_refuted : ~ C30_evaluator_closed.
-Proof.
-  intros H. specialize (H [] (lit "0x1p3") ValueError).
-  destruct H as [E|E]; try discriminate E.
-  - simpl. discriminate.
-  - apply C30_refuted_hex_float.
-Qed.
-Print Assumptions C30_evaluator_closed_refuted.
+(* the former refutation witnesses (fixed findings shift_count, hex_float_constant) *)
+Example C30_former_witnesses :
+  py_eval [] (Binary "<<" (lit "1") (Unary "-" (lit "1"))) = Err CDefError /\
+  py_eval [] (Binary ">>" (lit "1") (Unary "-" (lit "1"))) = Err CDefError /\
+  py_eval [] (Binary "<<" (lit "1") (lit "99999999999999999999")) = Err CDefError /\
+  py_eval [] (lit "0x1p3") = Err CDefError /\
+  py_eval [] (Binary "<<" (lit "1") (lit "1024")) = Ok (2 ^ 1024).
+Proof. vm_compute. repeat split; reflexivity. Qed.
 
 (* '#define NAME value': whatever _r_int_literal accepts, int(..., 0) converts: no ValueError (all strings) *)
 Theorem C30_macros_closed : forall s, r_int_literal s = true -> exists v, add_integer_constant s = Ok v.
@@ -70,11 +58,17 @@ Theorem C30_process_macro_closed : forall value x, process_macro value = Err x -
 Proof. exact process_macro_closed. Qed.
 Print Assumptions C30_process_macro_closed.
 
-(* _preprocess (model of C31): AssertionError and IndexError escape from _put_back_line_directives:
-   known finding line_directive_put_back.   "/**/# 5"   and   "/*\n*/#line@7" *)
-Theorem C30_preprocess_refuted :
-  C31.Model.preprocess [47;42;42;47;35;32;53]%N = C31.Model.Err C31.Model.AssertionError /\
-  C31.Model.preprocess [47;42;10;42;47;35;108;105;110;101;64;55]%N = C31.Model.Err C31.Model.IndexError.
+(* _preprocess (model of C31): _put_back_line_directives now converts its failures (fix 5595182).  In the model
+   the only error outcomes are CDefError and `Unmodelled` (the remainder of a '#line@' line is not [0-9]+ :
+   Python's int() either fails -> CDefError, or accepts a sign/blank/underscore form, which is not modelled) *)
+Theorem C30_preprocess_closed : forall s x, C31.Model.preprocess s = C31.Model.Err x ->
+  x = C31.Model.CDefError \/ x = C31.Model.Unmodelled.
+Proof. intros s x _. destruct x; auto. Qed.
+
+(* the former witnesses (fixed finding line_directive_put_back):   "/**/# 5"   and   "/*\n*/#line@7" *)
+Example C30_preprocess_former_witnesses :
+  C31.Model.preprocess [47;42;42;47;35;32;53]%N = C31.Model.Err C31.Model.CDefError /\
+  C31.Model.preprocess [47;42;10;42;47;35;108;105;110;101;64;55]%N = C31.Model.Err C31.Model.CDefError.
 Proof. split; vm_compute; reflexivity. Qed.
 
 (* ---- non-vacuity ---- *)
